@@ -456,7 +456,10 @@ fn c02_histories(req: &Value) -> Value {
 	];
 	// symbols 0..3: writes of content 0..3; symbols 4..7 (certificate and key files only): the same write with an
 	// owner that cannot be resolved ("99999999999": numeric, does not fit a uid), which fails after the data was written
-	let alpha_len = if ftype == "account" { 4usize } else { 8usize };
+	// symbols 0..3: plain writes; 4..7 (certificate, key): writes that fail after the data (unresolvable owner);
+	// 8..9: writes of contents 0 and 3 under a file size limit of 2048 bytes (write(2) itself fails for longer contents)
+	let alpha_len = if ftype == "account" { 4usize } else { 8usize } + 2;
+	let limited_base = alpha_len - 2;
 	let mut bad_fm = fm.clone();
 	bad_fm.cert_file_owner = Some("99999999999".to_string());
 	bad_fm.pk_file_owner = Some("99999999999".to_string());
@@ -516,24 +519,30 @@ fn c02_histories(req: &Value) -> Value {
 			let mut prev_len: i64 = init.as_ref().map(|d| d.len() as i64).unwrap_or(-1);
 			for (step, a) in seq.iter().enumerate() {
 				writes += 1;
-				let failing = *a >= 4;
-				let a = &(*a % 4);
+				let limited = *a >= limited_base;
+				let failing = !limited && *a >= 4;
+				let a = &(if limited { [0usize, 3][*a - limited_base] } else { *a % 4 });
 				let use_fm = if failing { &bad_fm } else { &fm };
 				let before = std::fs::read(&path).ok();
+				let mk_limit = || if limited { Some(FsizeLimit::set(2048)) } else { None };
 				let (written, res): (Vec<u8>, Result<(), String>) = match ftype.as_str() {
 					"crt" => {
 						let d = chains[*a].clone();
+						let _l = mk_limit();
 						let r = rt
 							.block_on(crate::storage::write_certificate(use_fm, &d))
 							.map_err(|e| e.message);
+						drop(_l);
 						(d, r)
 					}
 					"pk" => {
 						let k = &keys[key_alpha[*a]];
 						let d = k.private_key_to_pem().unwrap();
+						let _l = mk_limit();
 						let r = rt
 							.block_on(crate::storage::set_keypair(use_fm, k))
 							.map_err(|e| e.message);
+						drop(_l);
 						(d, r)
 					}
 					_ => {
@@ -553,7 +562,9 @@ fn c02_histories(req: &Value) -> Value {
 						))
 						.unwrap();
 						acc.file_manager = fm.clone();
+						let _l = mk_limit();
 						let r = rt.block_on(acc.save()).map_err(|e| e.message);
+						drop(_l);
 						let want_fp = account_fingerprint(&acc);
 						if r.is_ok() {
 							// must load back equal
@@ -585,6 +596,20 @@ fn c02_histories(req: &Value) -> Value {
 						(ref_bytes, r)
 					}
 				};
+				if limited {
+					// reported success means full content; a write(2) that cannot complete must be reported
+					let now = std::fs::read(&path).unwrap_or_default();
+					let complete = if ftype == "account" { now.len() == written.len() } else { now == written };
+					if res.is_ok() && !complete {
+						bad.push(json!({"oracle": "file=written", "file_type": ftype, "init": iname, "dir": "size-limit", "history": seq[..=step].to_vec(),
+							"detail": format!("a write under a 2048-byte file size limit was reported successful but the file holds {} of {} bytes", now.len(), written.len())}));
+					}
+					if res.is_err() && written.len() <= 2048 {
+						bad.push(json!({"oracle": "write-ok", "file_type": ftype, "init": iname, "history": seq[..=step].to_vec(), "detail": format!("a write that fits the limit failed: {:?}", res)}));
+					}
+					prev_len = now.len() as i64;
+					continue;
+				}
 				if failing {
 					// a failed write leaves the previous content or the new one, nothing else
 					let now = std::fs::read(&path).ok();
@@ -637,6 +662,37 @@ fn c02_histories(req: &Value) -> Value {
 	let _ = std::fs::remove_dir_all(&dir);
 	let _ = all;
 	json!({"ok": true, "file_type": ftype, "depth": depth, "histories": histories, "writes": writes, "states": states.len(), "bad": bad, "samples": samples})
+}
+
+/// RLIMIT_FSIZE for the whole process while the guard lives (SIGXFSZ ignored, so write(2) fails with EFBIG).
+struct FsizeLimit(u64, u64);
+#[repr(C)]
+struct RLimit {
+	cur: u64,
+	max: u64,
+}
+extern "C" {
+	fn getrlimit(resource: i32, rlim: *mut RLimit) -> i32;
+	fn setrlimit(resource: i32, rlim: *const RLimit) -> i32;
+	fn signal(sig: i32, handler: usize) -> usize;
+}
+impl FsizeLimit {
+	fn set(bytes: u64) -> FsizeLimit {
+		let mut old = RLimit { cur: 0, max: 0 };
+		unsafe {
+			signal(25, 1); // SIGXFSZ -> SIG_IGN
+			getrlimit(1, &mut old);
+			setrlimit(1, &RLimit { cur: bytes, max: old.max });
+		}
+		FsizeLimit(old.cur, old.max)
+	}
+}
+impl Drop for FsizeLimit {
+	fn drop(&mut self) {
+		unsafe {
+			setrlimit(1, &RLimit { cur: self.0, max: self.1 });
+		}
+	}
 }
 
 /// E3 for C09: breadth-first search over the reachable states of the real RateLimit under the
